@@ -292,3 +292,21 @@ MUTATIONS += [
     ("setattr-default-on", ["C07"], P, "    allow_setattr=False,", "    allow_setattr=True,"),
     ("del-handler-removes-any-key", ["C07"], P, "        self._local_objects.decref(get_id_pack(obj), count)", "        self._local_objects.decref(get_id_pack(obj), count)\n        if count > 500:\n            self._local_root.__dict__.clear()"),
 ]
+
+SRV = "rpyc/utils/server.py"
+MUTATIONS += [
+    # ---- C16 / C17: servers
+    ("accept-loop-without-per-client-try", ["C16"], SRV, "            except AuthenticationError:\n                    self.logger.info(\"%s failed to authenticate, rejecting connection\", addrinfo)\n                    return",
+     "            except ZeroDivisionError:\n                    return"),
+    ("service-instance-shared", ["C16"], "rpyc/core/service.py", "        if isinstance(self, type):  # autovivify if accessed as class method\n            self = self()",
+     "        if isinstance(self, type):  # autovivify if accessed as class method\n            self = self.__dict__.get('_the_one') or self()\n            type(self)._the_one = self"),
+    ("pool-worker-dies-on-exception", ["C16"], SRV, "            except Exception:\n                # \"Caught exception in Worker thread\" message\n                self.logger.exception(\"failed to serve client, caught exception\")\n                # wait a bit so that we do not loop too fast in case of error\n                time.sleep(0.2)",
+     "            except ZeroDivisionError:\n                time.sleep(0.2)"),
+    ("threaded-serves-in-accept-thread", ["C16"], SRV, "    def _accept_method(self, sock):\n        spawn(self._authenticate_and_serve_client, sock)", "    def _accept_method(self, sock):\n        self._authenticate_and_serve_client(sock)"),
+    ("server-close-not-iterating-clients", ["C17"], SRV, "        for c in set(self.clients):\n            try:\n                c.shutdown(socket.SHUT_RDWR)\n            except Exception:\n                pass\n            c.close()\n        self.clients.clear()", "        self.clients.clear()"),
+    ("client-socket-not-discarded", ["C17"], SRV, "            closing(sock)\n            self.clients.discard(sock)", "            closing(sock)"),
+    ("server-closed-flag-removed", ["C17"], SRV, "        if self._closed:\n            return\n        self._closed = True\n        self.active = False", "        self._closed = True\n        self.active = False"),
+    ("oneshot-not-closing", ["C17"], SRV, "        try:\n            self._authenticate_and_serve_client(sock)\n        finally:\n            self.close()", "        self._authenticate_and_serve_client(sock)"),
+    ("forking-parent-keeps-socket", ["C17"], SRV, "            # parent\n            sock.close()\n            self.clients.discard(sock)", "            # parent\n            pass"),
+    ("pool-drop-connection-keeps-entry", ["C17"], SRV, "            conn = self.fd_to_conn[fd]\n            del self.fd_to_conn[fd]", "            conn = self.fd_to_conn[fd]"),
+]
